@@ -53,7 +53,7 @@ pub struct Scenario {
     pub scheds: Vec<Sched>,
 }
 
-fn render(i: usize, m: &ModSpec) -> String {
+pub fn render(i: usize, m: &ModSpec) -> String {
     let mut s = String::new();
     let mut reads = String::new();
     let mut seen = BTreeSet::new();
